@@ -11,7 +11,7 @@ from mc.rec import Rec, unhex
 from ref import cds as R
 
 PROPERTY = "C14"
-LEVEL = "exploration"
+LEVEL = "model_checking"  # bounded-exhaustive enumeration of executions against a reference model (DESIGN.md 1, 2.1)
 EXHAUSTIVE = True
 RULE = (
     "a case is one of: a (day, ms) stamp [construct, pack, unpack, read_from_raw, Unix-seconds and datetime views, "
